@@ -12,6 +12,9 @@ Proved here (model `Verif.Model.Mpt` / `Verif.Model.MptEnc`):
                                two operation sequences (exported `Insert`/`Delete`, one version) with the same
                                abstract content produce the same tree and the same root
                                (relative to `MapLaws`, the map-refinement facts of C01);
+  * `C02_canon_builder`, `C02_root_canon_builder` (+ `C02_canonOf_spec`, `_content_only`, `C02_contentList_spec`)
+                               second sentence: the trie of any history IS `canonOf v (contentList ops)`, the canonical
+                               trie built independently (not through `insert`) from the finite content;
   * `C02_injective` (def)      "different content ⇒ different root" for an injective hash — FALSE:
     `C02_injective_false`      leaf ↔ extension type confusion (witness with `H = id`),
     `C02_collision_any_hash`   leaf ↔ branch type confusion, a root collision for EVERY hash function,
@@ -28,6 +31,7 @@ import Verif.Lemmas.MptHistory
 import Verif.Lemmas.MptEncInj
 import Verif.Lemmas.MptEncWitness
 import Verif.Lemmas.MptCanonExamples
+import Verif.Lemmas.MptCanonOf
 import Verif.Props.C01
 namespace Verif.Props.C02
 open Verif.Mpt
@@ -210,5 +214,60 @@ theorem C02_run_repr_closed (maxSize v : Nat) (ops : List Op) :
     WF (run maxSize v ops) ∧ AllOrigin v (run maxSize v ops) ∧
       ∀ q, lookup (run maxSize v ops) q = content maxSize ops q :=
   C02_run_repr mapLaws maxSize v ops
+
+/-! ### E. The root equals an independent recomputation from the content
+
+`canonOf v l` (`Verif.Lemmas.MptCanonOf`) builds the canonical trie directly from a finite content `l` (association
+list, distinct paths, non-empty values) — one entry → leaf with the remaining path; all paths share the first nibble →
+that nibble joins the common prefix; otherwise a branch (value = the entry with empty remaining path, child `i` = the
+tails of the paths starting with `i`) under an extension carrying the common prefix.  It is not defined through
+`insert`/`delete`.  `contentList ops` is the finite content of a history (`alookup (contentList ops) = content ops`). -/
+
+/-- the independent builder is correct: canonical, single-origin, and it stores exactly the content -/
+theorem C02_canonOf_spec (v : Nat) (l : List Entry) (hg : Good l) :
+    WF (canonOf v l) ∧ AllOrigin v (canonOf v l) ∧ ∀ q, lookup (canonOf v l) q = alookup l q :=
+  canonOf_spec v hg
+
+/-- the builder depends on the content only (not on the order of the list) -/
+theorem C02_canonOf_content_only (v : Nat) (l₁ l₂ : List Entry) (hg₁ : Good l₁) (hg₂ : Good l₂)
+    (h : ∀ q, alookup l₁ q = alookup l₂ q) : canonOf v l₁ = canonOf v l₂ :=
+  eq_canonOf hg₂ (canonOf_spec v hg₁).1 (canonOf_spec v hg₁).2.1 (fun q => by rw [(canonOf_spec v hg₁).2.2, h])
+
+/-- the finite content of a history is a well-formed content list that represents the abstract content -/
+theorem C02_contentList_spec (maxSize : Nat) (ops : List Op) :
+    Good (contentList maxSize ops) ∧ ∀ q, alookup (contentList maxSize ops) q = content maxSize ops q :=
+  contentList_spec maxSize ops
+
+/-- **C02, second sentence**: the trie reached by ANY history at version `v` is the independently built canonical trie
+    of its content … -/
+theorem C02_canon_builder (maxSize v : Nat) (ops : List Op) :
+    run maxSize v ops = canonOf v (contentList maxSize ops) := by
+  obtain ⟨hw, ho, hm⟩ := C02_run_repr_closed maxSize v ops
+  obtain ⟨hg, hc⟩ := contentList_spec maxSize ops
+  exact eq_canonOf hg hw ho (fun q => by rw [hm, hc])
+
+/-- … hence the root equals the root recomputed from the content, for every hash function. -/
+theorem C02_root_canon_builder (H : Bytes → Bytes) (maxSize v : Nat) (ops : List Op) :
+    root H (run maxSize v ops) = root H (canonOf v (contentList maxSize ops)) := by
+  rw [C02_canon_builder]
+
+/-- non-vacuity: four keys sharing prefixes, one of them (`[1,2]`) a prefix of two others, plus an overwrite, a
+    delete and a rejected insert in the history; the builder's result is the expected extension/branch/leaf tree -/
+def exOps₃ : List Op :=
+  [.ins [1, 2, 3] [7], .ins [5] [9], .ins [1, 2] [8], .ins [1, 2, 3] [6], .ins [1, 2, 4, 0] [5], .del [5],
+   .ins [1, 7] [4], .ins [2] []]
+
+example : contentList 100 exOps₃ = [([1, 7], [4]), ([1, 2, 4, 0], [5]), ([1, 2, 3], [6]), ([1, 2], [8])] := by decide
+
+example : Good (contentList 100 exOps₃) := (C02_contentList_spec 100 exOps₃).1
+
+example : lookup (canonOf 7 (contentList 100 exOps₃)) [1, 2] = some [8] ∧
+    lookup (canonOf 7 (contentList 100 exOps₃)) [1, 2, 4, 0] = some [5] ∧
+    lookup (canonOf 7 (contentList 100 exOps₃)) [5] = none := by decide
+
+example : ∃ ch₁ ch₂, canonOf 7 (contentList 100 exOps₃) = .ext 7 [1] (.full 7 ch₁ none) ∧
+    ch₁ 7 = .leaf 7 [] [4] ∧ ch₁ 2 = .full 7 ch₂ (some [8]) ∧ ch₂ 3 = .leaf 7 [] [6] ∧ ch₂ 4 = .leaf 7 [0] [5] ∧
+    ch₁ 0 = .empty :=
+  ⟨_, _, rfl, rfl, rfl, rfl, rfl, rfl⟩
 
 end Verif.Props.C02
